@@ -432,8 +432,11 @@ func Supervise(e Engine, opt *Options) int {
 	}
 	wg.Wait()
 	if trouble != nil {
+		// Not fatal yet: the part of the batch that did run may hold confirmed
+		// violations, which are worth more than the trouble (a library that hangs
+		// a worker usually misbehaves in observable ways elsewhere too). Without
+		// any, the exit status is 2.
 		fmt.Printf("MACHINERY-TROUBLE %s: %v\n", e.ID(), trouble)
-		return 2
 	}
 	all := &merged{stats: map[string]int64{}, max: map[string]int64{}, tuples: map[string]struct{}{}, hashes: map[uint64]struct{}{}}
 	for _, m := range results {
@@ -536,7 +539,7 @@ func Supervise(e Engine, opt *Options) int {
 			}
 		}
 	}
-	if machinery && exit == 0 {
+	if (machinery || trouble != nil) && exit == 0 {
 		// trouble with no confirmed violation: the check itself is at fault
 		exit = 2
 	}
